@@ -1653,6 +1653,21 @@ class Kconfig(object):
                         sym._loaded_as_default = False
                     sym.present_in_current_sdkconfig = True
 
+            if replace:
+                # If we're replacing the configuration, unset the symbols that
+                # didn't get set. This must happen before the default values are
+                # resolved: user values (and choice selections) left over from
+                # before the load are not part of the configuration being
+                # loaded and must not take part in resolving its defaults.
+
+                for sym in self.unique_defined_syms:
+                    if not sym._was_set:
+                        sym.unset_value()
+
+                for choice in self.unique_choices:
+                    if not choice._was_set:
+                        choice.unset_value()
+
             for sym in symbols_with_default_values:
                 sym.resolve_defaults()
 
@@ -1665,18 +1680,6 @@ class Kconfig(object):
 
             for choice in self.unique_choices:
                 choice._invalidate()
-
-        if replace:
-            # If we're replacing the configuration, unset the symbols that
-            # didn't get set
-
-            for sym in self.unique_defined_syms:
-                if not sym._was_set:
-                    sym.unset_value()
-
-            for choice in self.unique_choices:
-                if not choice._was_set:
-                    choice.unset_value()
 
         if self.print_report or self.report.status == REPORT_STATUS_ERROR:
             self.report.print_report()
